@@ -1880,7 +1880,7 @@ func (v *sxView) flagNorm(paths []*Path) []*Path {
 		return ps
 	}
 	if len(drop) == 0 {
-		return v.unrolledGuardNorm(v.emptyGuardNorm(fold(cur)))
+		return v.unrolledGuardNorm(v.guardSpecNorm(v.emptyGuardNorm(fold(cur))))
 	}
 	var out []*Path
 	for i, p := range cur {
@@ -1892,7 +1892,7 @@ func (v *sxView) flagNorm(paths []*Path) []*Path {
 		}
 		out = append(out, p)
 	}
-	return v.unrolledGuardNorm(v.emptyGuardNorm(fold(append(append(out, added...), last...))))
+	return v.unrolledGuardNorm(v.guardSpecNorm(v.emptyGuardNorm(fold(append(append(out, added...), last...)))))
 }
 
 // emptinessOf: t is an emptiness test of some collection X (len(X) == 0, 0 == len(X), len(X) < 1, len(X) <= 0 and their negations
@@ -1996,7 +1996,7 @@ func eraseEpochs(t Term) Term {
 // Whenever the guard sends a call down the fast path the loop would not have run (folded for sizes 0..9 and a large one), so the
 // guard decides nothing; it is dropped from the paths and the fast path with it.
 func (v *sxView) emptyGuardNorm(paths []*Path) []*Path {
-	for round := 0; round < 3; round++ {
+	for round := 0; round < 48; round++ { // one guard per round (seven flavour arms with two guards each in a From-constructor)
 		changed := false
 		for fi, pf := range paths {
 			// a candidate fast path: conditions only
@@ -2019,6 +2019,29 @@ func (v *sxView) emptyGuardNorm(paths []*Path) []*Path {
 				continue
 			}
 			G := pf.Steps[gi].Cond
+			// `xs == nil` implies `len(xs) == 0`: a nil guard is read as the (weaker) emptiness guard — if the general path does for
+			// every empty xs what the fast path does, it does so for the nil one
+			Gorig := G.T
+			G.T = mapBU(G.T, func(u Term) Term {
+				b, ok := u.(TBin)
+				if !ok || (b.Op != token.EQL && b.Op != token.NEQ) {
+					return u
+				}
+				x := b.X
+				if _, isN := b.Y.(TNil); !isN {
+					if _, isN := b.X.(TNil); !isN {
+						return u
+					}
+					x = b.Y
+				}
+				if t := v.c.termType(x); t != nil {
+					switch t.Underlying().(type) {
+					case *types.Slice, *types.Map:
+						return TBin{b.Op, TBuiltin{Name: "len", Args: []Term{x}}, TConst{constant.MakeInt64(0)}}
+					}
+				}
+				return u
+			})
 			// the size the guard talks about: the receiver's count, or len(X) of one collection X
 			var X Term
 			recvCount, sizeOK := false, true
@@ -2078,7 +2101,7 @@ func (v *sxView) emptyGuardNorm(paths []*Path) []*Path {
 					continue
 				}
 				s := p.Steps[gi]
-				if s.Kind != "cond" || !sameTerm(s.Cond.T, G.T) || s.Cond.Truth == G.Truth {
+				if s.Kind != "cond" || !sameTerm(s.Cond.T, Gorig) || s.Cond.Truth == G.Truth {
 					good = false
 					break
 				}
